@@ -895,3 +895,39 @@ Proof.
   - change (split_on_max colon 2 ("skfem:b:" ++ name)) with ("skfem"%string :: "b"%string :: split_on_max colon 0 name).
     rewrite split_on_max_0. reflexivity.
 Qed.
+
+(* ------------------------------------------------------------------ decoding against the tables of the mesh as loaded *)
+(* decoding against ANOTHER neighbour table f2t' (e.g. the one of the mesh as loaded, whose rows may be exchanged where
+   the loaded mesh orders the vertices of its cells differently): the facets come back sorted, and each flag says whether
+   the second neighbour in f2t' is the OWNER cell f2t[flag][facet] chosen when encoding *)
+Theorem boundary_roundtrip_other_f2t (nslots nt : nat) (t2f : mat nat) (f2t f2t' : mat Z) (ori : list bool) (b : list nat) :
+  List.length ori = List.length b -> NoDup b ->
+  (forall f o, In (f, o) (combine b ori) -> coherent1 nslots nt t2f f2t f o) ->
+  decode_boundary nslots nt t2f f2t' (encode_boundary nslots nt t2f f2t ori b)
+  = (map fst (sort_kv (combine b ori)),
+     map (fun fo : nat * bool => Z.eqb (get2 (- 1)%Z f2t' 1 (fst fo)) (side_cell f2t (snd fo) (fst fo)))
+         (sort_kv (combine b ori))).
+Proof.
+  intros Hlen Hnd Hcoh. unfold decode_boundary.
+  rewrite (decode_pairs_eq nslots nt t2f f2t ori b Hlen Hnd Hcoh).
+  apply pair_equal_spec. split.
+  - rewrite map_map. reflexivity.
+  - unfold ori_of. rewrite combine_map_same, !map_map. apply map_ext_in. intros [f o] Hin. simpl.
+    assert (HinL : In (f, o) (combine b ori)) by (eapply Permutation_in; [apply sort_kv_perm | exact Hin]).
+    destruct (Hcoh _ _ HinL) as [Hv _ _ _]. rewrite Z2Nat.id by lia. reflexivity.
+Qed.
+
+(* ... hence the tagged SIDE is kept: if the owner cell is one of the two distinct neighbours of the facet in f2t', the
+   decoded flag selects it *)
+Theorem decoded_flag_keeps_side (f2t' : mat Z) (f : nat) (c : Z) :
+  get2 (- 1)%Z f2t' 0 f <> get2 (- 1)%Z f2t' 1 f ->
+  (c = get2 (- 1)%Z f2t' 0 f \/ c = get2 (- 1)%Z f2t' 1 f) ->
+  get2 (- 1)%Z f2t' (if Z.eqb (get2 (- 1)%Z f2t' 1 f) c then 1 else 0) f = c.
+Proof.
+  intros Hne Hc. destruct (Z.eqb_spec (get2 (- 1)%Z f2t' 1 f) c) as [He|Hn]; [exact He|].
+  destruct Hc as [Hc|Hc]; [now symmetry | congruence].
+Qed.
+
+(* the optional flag comes back for every class default and every value *)
+Lemma opt_flag_roundtrip default v : opt_flag_load default (opt_flag_save default v) = v.
+Proof. unfold opt_flag_save, opt_flag_load. destruct v, default; reflexivity. Qed.
